@@ -185,8 +185,8 @@ func numVal(prim string, x float64) *dg.Val {
 
 var formatSubclasses = map[string][]string{
 	"ip":        {"192.168.0.1", "2001:db8::1", "::ffff:10.0.0.1", "1.2.3"},
-	"ipv4":      {"0.0.0.0", "255.255.255.255", "::1"},
-	"ipv6":      {"2001:db8::1", "::", "10.0.0.1"},
+	"ipv4":      {"0.0.0.0", "255.255.255.255", "::1", "::ffff:10.0.0.1", "::ffff:a00:1", "010.1.1.1"},
+	"ipv6":      {"2001:db8::1", "::", "10.0.0.1", "::ffff:10.0.0.1", "::ffff:a00:1", "1::2::3"},
 	"uri":       {"https://example.com/a/b?c=d#e", "/relative/path", "mailto:a@b.co", "relative"},
 	"date-time": {"2020-02-29T10:11:12Z", "2020-02-29T10:11:12+01:00", "2020-02-29T10:11:12.123456Z", "2020-02-29t10:11:12z", "2020-02-29"},
 	"date":      {"2020-02-29", "2021-02-29", "20200229"},
